@@ -1,15 +1,20 @@
 (** Correspondence check for C19. *)
-From Coq Require Import List ZArith NArith Bool.
+From Coq Require Import String List ZArith NArith Bool.
 From Fabio Require Import Lib.Outcome Lib.Bytes Lib.Verdict Model.Transport Proofs.Transport.
 Import ListNotations.
 Local Open Scope Z_scope.
 
 Definition tls_eqb (a b : tlscfg) : bool :=
   beq (tls_server_name a) (tls_server_name b) && Bool.eqb (tls_skip_verify a) (tls_skip_verify b).
-Definition transport_eqb (a b : transport) : bool :=
+(* what the property is about: the five limits, the TLS settings asked for, and the named other
+   fields that limit connections or take the connect away from the configured dialer *)
+Definition limits_eqb (a b : transport) : bool :=
   (t_rht a =? t_rht b) && (t_idle a =? t_idle b) && (t_maxidle a =? t_maxidle b)
   && (t_dial a =? t_dial b) && (t_keepalive a =? t_keepalive b)
   && opt_eqb tls_eqb (t_tls a) (t_tls b) && (t_other a =? t_other b).
+(* correspondence: additionally every field the model does not know is at its zero value; a new one
+   is then a correspondence break (verdict 3: look at it), not a claimed failure of the property *)
+Definition transport_eqb (a b : transport) : bool := limits_eqb a b && (t_unknown a =? t_unknown b).
 
 (* spec side, computed without [run]: for the NewTransport at position k the limits are those
    of the last SetConfig among the first k operations *)
@@ -22,53 +27,85 @@ Fixpoint positions (ops : list op) (k : nat) : list (nat * option tlscfg) :=
 Definition expected_hist (s : limits) (ops : list op) : list transport :=
   map (fun p => new_transport (last_config s (firstn (fst p) ops)) (snd p)) (positions ops 0).
 
+(* wall-clock allowances (ms), fixed here and not supplied by the case: the client may be answered
+   up to [early] before the model's time (timer granularity) and up to [late] after it (scheduling);
+   "within that time" of the property allows min(late, limit/2 + 400) beyond the limit, which for
+   the long limits of the scenario list stays below a second attempt *)
+Definition early : Z := 20.
+Definition late : Z := 3000.
+Definition within_allowance (limit : Z) : Z := Z.min late (limit / 2 + 400).
+
 Inductive case :=
 (* a history run on the real package from state [s0]; impl = the fields of every transport built *)
 | CHist (s0 : limits) (ops : list op) (impl : list transport)
-(* a route with a host override looked up through route.NewTable: impl = its private transport, if any *)
-| CRoute (s : limits) (host : str) (dst_https proto_https skip : bool) (impl : option transport)
+(* a route looked up through route.NewTable: host / proto / tlsskipverify options as written, whether
+   the destination's scheme is https; impl = its private transport, if any *)
+| CRoute (s : limits) (host : str) (dst_https : bool) (proto : str) (skip : bool) (impl : option transport)
+(* the table fabio's real main() installed before its listeners started, main() started with the
+   flags of [cfg] in a fresh process and the static routes [tgs]; impl = the private transport of
+   each target, in table order *)
+| CMain (cfg : limits) (tgs : list target) (impl : list (option transport))
+(* SetConfig(&c1); the caller then overwrites its struct with c2; NewTransport(nil) *)
+| CAlias (c1 c2 : limits) (impl : transport)
 (* httpProxyErrorHandler on an error of the given kind *)
 | CErr (e : errkind) (impl : Z)
-(* a real upstream answering after [delay] behind HTTPProxy with the transport built from
-   ResponseHeaderTimeout = [limit] (all in ms): status seen by the client, elapsed ms
-   and the number of requests the upstream received for it *)
-| CServe (limit delay ust : Z) (impl_status elapsed slack hits : Z)
-(* the dial timeout in action, for each kind of transport (plain, skip-verify TLS, per-route host
-   override): [limit] in ns; [connect] = a lower bound of what connecting costs on loopback (1000 ns is
-   never met); status seen by the client *)
+(* a real upstream answering after [delay] behind HTTPProxy for each kind of target (0 plain, 1 skip-verify
+   TLS, 2 per-route host override) with the transports built from ResponseHeaderTimeout = [limit]
+   (all in ms): status seen by the client, elapsed ms and the number of requests the upstream
+   received for it *)
+| CServe (kind : N) (limit delay ust : Z) (impl_status elapsed hits : Z)
+(* the dial timeout in action, for each kind of target: [limit] in ns; [connect] = a lower bound of what
+   connecting costs on loopback (1000 ns is never met); status seen by the client *)
 | CDial (kind : N) (limit connect ust : Z) (impl_status : Z).
+
+Definition built_from (s : limits) (impl : option transport) : bool :=
+  match impl with
+  | Some t => limits_eqb t (new_transport s (t_tls t))
+  | None => true
+  end.
 
 Definition check_case (c : case) : N :=
   match c with
   | CHist s0 ops impl =>
       let m := run set_config s0 ops in
       let same := list_eqb transport_eqb impl m in
-      let spec := list_eqb transport_eqb impl (expected_hist s0 ops) in
+      let spec := list_eqb limits_eqb impl (expected_hist s0 ops) in
       let nontriv := existsb (fun o => match o with SetConfig _ => true | _ => false end) ops
                      && negb (match m with [] => true | _ => false end) in
       verdict same spec None nontriv
-  | CRoute s host dh ph skip impl =>
-      let m := route_transport s host dh ph skip in
+  | CRoute s host dh proto skip impl =>
+      let m := route_transport s host dh (proto_is_https proto) skip in
       let same := opt_eqb transport_eqb impl m in
-      let spec := match impl with
-                  | Some t => transport_eqb t (new_transport s (t_tls t))
-                  | None => true
-                  end in
-      verdict same spec None (match m with Some _ => true | None => false end)
+      verdict same (built_from s impl) None (match m with Some _ => true | None => false end)
+  | CMain cfg tgs impl =>
+      let m := map snd (px_targets (main_start set_config init_state cfg tgs)) in
+      let same := list_eqb (opt_eqb transport_eqb) impl m in
+      let spec := forallb (built_from cfg) impl in
+      verdict same spec None (existsb (fun o => match o with Some _ => true | None => false end) m)
+  | CAlias c1 c2 impl =>
+      let m := new_transport (caller_writes (set_config init_state c1) c2) None in
+      (* the property does not say which of the two a transport built afterwards should carry *)
+      let spec := limits_eqb impl (new_transport c1 None) || limits_eqb impl (new_transport c2 None) in
+      verdict (transport_eqb impl m) spec None true
   | CErr e impl =>
       let same := impl =? error_status e in
-      let spec := match e with ENetTimeout => impl =? 504 | _ => negb (impl =? 504) end in
+      let spec := match e with
+                  | ENetTimeout => impl =? 504
+                  (* http.Transport never hands a timeout out wrapped: the property asks for neither answer *)
+                  | EWrapsTimeout => (impl =? 500) || (impl =? 504)
+                  | _ => negb (impl =? 504)
+                  end in
       verdict same spec None true
-  | CServe limit delay ust st elapsed slack hits =>
+  | CServe _ limit delay ust st elapsed hits =>
       let '(mst, mt, mhits) := serve_n attempts_of_proxy limit delay ust in
-      let same := (st =? mst) && (mt - 20 <=? elapsed) && (elapsed <=? mt + slack) && (hits =? mhits) in
-      (* "within that time": the scheduling allowance of the spec grows with the limit but stays
-         below a second attempt for the long limits the harness includes *)
-      let spec := if (0 <? limit) && (limit + 20 <=? delay)
-                  then (st =? 504) && (elapsed <=? limit + Z.min slack (limit / 2 + 400))
-                  else if (limit =? 0) || (delay + 20 <=? limit) then st =? ust else true in
+      let same := (st =? mst) && (mt - early <=? elapsed) && (elapsed <=? mt + late) && (hits =? mhits) in
+      let spec := if (0 <? limit) && (limit + early <=? delay)
+                  then (st =? 504) && (elapsed <=? limit + within_allowance limit)
+                  else if (limit <=? 0) || (delay + early <=? limit) then st =? ust else true in
       verdict same spec None true
   | CDial _ limit connect ust st =>
       let m := dial limit connect ust in
-      verdict (st =? m) (st =? m) None true
+      (* spec side from the declarative [dial_hits], not from [dial] *)
+      let hits := (limit <? 0) || ((0 <? limit) && (limit <=? connect)) in
+      verdict (st =? m) (if hits then st =? 504 else st =? ust) None true
   end.
